@@ -64,11 +64,11 @@ class Sc:
 
     def files(self):
         fs = {}
-        if not self.url.startswith("sass:"):
+        if not self.url.startswith("sass:") and not (self.fwd or {}).get("target", "m").startswith("sass:"):
             fs[self.file] = self.module_src()
         if self.fwd is not None:
             f = self.fwd
-            line = '@forward "m"'
+            line = '@forward "%s"' % f.get("target", "m")
             if f["pre"]:
                 line += f" as {f['pre']}*"
             if f["kind"] != "all":
@@ -76,6 +76,8 @@ class Sc:
                 line += f" {f['kind']} " + ", ".join(names)
             line += self.with_src(f["withs"]) + ";\n"
             fs["f.scss"] = line
+            if f.get("nested"):
+                fs["_top.scss"] = '@forward "f";\n'
         if self.prewiths is not None:
             fs["o.scss"] = f'@use "m"{self.with_src(self.prewiths)};\n'
         return fs
@@ -100,8 +102,8 @@ class Sc:
             if k == "f":
                 return f"x {{ y: {q}{n}(); }}"
             return f"@include {q}{n};"
-        _, ns, n, v = p
-        return f"{ns}.${n}: {v};\nx {{ y: {ns}.${n}; }}"
+        kind, ns, n, v = p
+        return f"{ns}.${n}: {v}{' !default' if kind == 'd' else ''};\nx {{ y: {ns}.${n}; }}"
 
     def line(self):
         files = ",".join(f"{n}:{hx(d)}" for n, d in sorted(self.files().items()))
@@ -112,7 +114,7 @@ class Sc:
         else:
             f = self.fwd
             fwd = "|".join([f["pre"] or "-", f["kind"], ";".join(f["funs"]) or "", ";".join(f["vars"]) or "",
-                            ";".join(f"{n}={v}" for n, v in f["withs"])])
+                            ";".join(f"{n}={v}" for n, v in f["withs"]), "b" if f.get("target", "m").startswith("sass:") else "u"])
         ws = ";".join(f"{n}={v}" for n, v in self.withs) or "-"
         pre = "-" if self.prewiths is None else "+" + ";".join(f"{n}={v}" for n, v in self.prewiths)
         ps = ",".join(".".join(str(x) for x in p) for p in self.probes)
@@ -199,6 +201,8 @@ def gen_use(rng):
         for n, d in vars_[:2]:
             sc.probes.append(("a", ns0, swap(n, rng), rng.randint(100, 200)))
         sc.probes.append(("a", ns0, "newvar", 5))
+        if vars_:
+            sc.probes.append(("d", ns0, swap(vars_[0][0], rng), 300))
     return sc
 
 
@@ -271,11 +275,42 @@ def gen_builtin(rng):
     return sc
 
 
+def gen_builtin_forward(rng):
+    """a built-in module reached through `@forward "sass:math"` of a user module (plain, prefixed, show/hide,
+    nested forward): reads, assignment, `!default` assignment, `with` on the forward rule"""
+    sc = Sc()
+    sc.stratum = "builtin-forward"
+    sc.decls = [("v", "pi", 0, False), ("v", "e", 0, False), ("f", "floor", 0, False)]
+    pre = rng.choice([None, None, None, "p-", "mm_"])
+    kind = rng.choice(["all", "all", "hide", "hide", "show"])
+    funs, vars_ = [], []
+    if kind == "show":
+        vars_ = [(pre or "") + "pi"] + ([(pre or "") + "e"] if rng.random() < 0.5 else [])
+    elif kind == "hide":
+        if rng.random() < 0.5:
+            funs = [(pre or "") + rng.choice(["floor", "ceil"])]
+        else:
+            vars_ = [(pre or "") + "e"]
+    withs = [(rng.choice(["pi", "zz"]), 3)] if rng.random() < 0.2 else []
+    nested = rng.random() < 0.3
+    sc.fwd = {"pre": pre, "kind": kind, "funs": funs, "vars": vars_, "withs": withs, "target": "sass:math", "nested": nested}
+    sc.url, sc.file = ("top" if nested else "f"), "unused.scss"
+    sc.as_ = rng.choice(["-", "-", "=q"])
+    ns = "q" if sc.as_ == "=q" else sc.url
+    P = pre or ""
+    sc.probes = [("r", ns, "v", P + "pi"), ("r", ns, "v", P + "e"), ("a", ns, P + "pi", 3), ("d", ns, P + "pi", 4),
+                 ("a", ns, P + "e", 2), ("a", ns, P + "zz", 1), ("r", "-", "v", P + "pi")]
+    if P:
+        sc.probes += [("r", ns, "v", "pi"), ("a", ns, "pi", 3)]
+    return sc
+
+
 def gen(tier, rng, boost=1):
     n = (260 if tier == "quick" else 20000) * boost
     for i in range(n):
         k = rng.random()
-        sc = gen_use(rng) if k < 0.45 else gen_forward(rng) if k < 0.8 else gen_reconfigure(rng) if k < 0.92 else gen_builtin(rng)
+        sc = gen_use(rng) if k < 0.4 else gen_forward(rng) if k < 0.72 else gen_reconfigure(rng) if k < 0.82 else \
+            gen_builtin(rng) if k < 0.88 else gen_builtin_forward(rng)
         yield Case(sc.line(), sc.stratum)
 
 
@@ -288,7 +323,8 @@ def canon(res, builtin):
             if not m:
                 out.append("?" + css)
             elif re.fullmatch(r"[0-9.]+", m.group(1)):
-                out.append("=0" if builtin else "=" + m.group(1))
+                # the constants of sass:math are reported as 0 (the model's values are abstract)
+                out.append("=0" if builtin and m.group(1).startswith(("3.14159", "2.71828")) else "=" + m.group(1))
             elif re.fullmatch(r"[-a-z_]+\(\)", m.group(1)):
                 out.append("css")
             else:
@@ -304,7 +340,7 @@ def judge(case, impl, asis, spec):
     f = case.lines[0].split("\t")
     if impl.startswith(("panic", "abort")) or ";panic" in impl:
         return Verdict(True, None)
-    c = canon(impl, f[5].startswith("sass:"))
+    c = canon(impl, f[5].startswith("sass:") or f[6].endswith("|b"))
     fails = None
     if c != spec:
         bad = [i for i, (a, b) in enumerate(zip(c.split(";"), spec.split(";"))) if a != b]
